@@ -398,6 +398,13 @@ func cloneTree(t *model.TNode) *model.TNode {
 // alphabet returns every call of the reduced alphabet that is valid in state m.
 func c07Alphabet(family string, m *model.Node) []gen.Edit {
 	var out []gen.Edit
+	// the container may be gone (an undo of the edit that created it): nothing to offer
+	if k, ok := map[string]string{"text": "txt", "array": "arr", "tree": "tree"}[family]; ok {
+		want := map[string]string{"text": "txt", "array": "arr", "tree": "tree"}[family]
+		if c := m.Obj[k]; c == nil || c.Kind != want {
+			return nil
+		}
+	}
 	switch family {
 	case "text":
 		t := m.Obj["txt"]
